@@ -1,10 +1,10 @@
 package main
 
 import (
-	"go/token"
 	"fmt"
-	"os"
+	"go/token"
 	"go/types"
+	"os"
 	"strings"
 
 	"golang.org/x/tools/go/ssa"
